@@ -462,19 +462,19 @@ class TriMesh(PointCloud):
         # for a triangle to only share one edge with the rest of the mesh (so
         # it would have two "lonely" edges
         lonely_triangles = {}
+        edge_counts = {}
         for edge, t_i in zip(edge_indices, tri_indices):
             # Sorted the edge indices since we may see an edge (0, 1) and then
             # see it again as (1, 0) when in fact that is the same edge
             sorted_edge = tuple(sorted(edge))
-            if sorted_edge not in lonely_triangles:
-                lonely_triangles[sorted_edge] = t_i
-            else:
-                # If we've already seen the edge the we will never see it again
-                # so we can just remove it from the candidate set
-                del lonely_triangles[sorted_edge]
+            # Count every sighting - a non-manifold edge may be shared by more
+            # than two triangles
+            edge_counts[sorted_edge] = edge_counts.get(sorted_edge, 0) + 1
+            lonely_triangles.setdefault(sorted_edge, t_i)
 
+        lonely = [t_i for e, t_i in lonely_triangles.items() if edge_counts[e] == 1]
         mask = np.zeros(self.n_tris, dtype=bool)
-        mask[np.array(list(lonely_triangles.values()))] = True
+        mask[np.array(lonely, dtype=int)] = True
         return mask
 
     def edge_vectors(self):
